@@ -109,7 +109,9 @@ PROPS = {
                 "observed: String, Unmarshal, IsNesting, Traverse over 9 paths, Condition.Len/IsNesting, no-nesting Push count, Transfer, IsEqual in both directions, "
                 "ConvertStack/ConvertCondition per element; the two observations must coincide and equal the model's",
         "modelled": COMMON_MODELLED,
-        "assumptions": ["IsEqual across forms is compared on the implementation only until the equality model (C05) is merged; Defrag across forms is covered by C19"],
+        "assumptions": ["IsEqual across forms (C12_isEqual*): user EqualityPolicy closures are form-blind (HookBlind: hook p (erase a) (erase b) = hook p a b), "
+                        "or no EqualityPolicy is installed in the receiver's tree (C12_isEqual_noPolicy); no hypothesis on []any leaves; "
+                        "Defrag across forms (C12_defrag) holds for every recursion budget and argument list without hypotheses"],
     },
     "C13": {
         "lean": ["Stackage.Props.C13", "Stackage.Props.C06"],
